@@ -587,9 +587,9 @@ STATE_CHANGING = ('CreateInstance', 'DeleteInstance', 'ModifyInstance', 'CreateC
                   'OpenEnumerateInstances', 'OpenEnumerateInstancePaths', 'CloseEnumeration', 'InvokeMethod')
 
 
-def http_case(sizes, seed, dflt, ops, fault, i):
+def http_case(sizes, seed, dflt, ops, fault, i, ctype=None):
     return {'kind': 'http', 'sizes': sizes, 'seed': seed, 'dflt': dflt, 'ops': ops[:i + 1], 'all_ops': ops,
-            'fault': {str(k): v for k, v in fault.items()}, 'index': i}
+            'fault': {str(k): v for k, v in fault.items()}, 'index': i, 'content_type': ctype}
 
 
 def check_http_states(run, states, case):
@@ -598,6 +598,11 @@ def check_http_states(run, states, case):
         run.violate({'kind': 'repository_differs_after_history', 'faulted': bool(case['fault']),
                      'where': (dd[0].split('.')[-1].replace('[]', '') if dd else '')}, case,
                     {'diff': _short(dd, 800)})
+
+
+def facade_content_types():
+    import facade
+    return facade.HttpFacade.CONTENT_TYPES
 
 
 def run_http(run, n, out):
@@ -618,14 +623,23 @@ def run_http(run, n, out):
             'namespace': {'t': 'str', 'v': 'root/a'}}})
         ops.insert(rng.randrange(3, 6), {'op': 'DeleteInstance', 'args': {
             'InstanceName': {'t': 'iname', 'cls': 'TST_P', 'key': 'p0', 'ns': 'root/a', 'host': None}}})
+        # non-ASCII data in requests and replies (the reply's Content-Type varies, see below)
+        ops.insert(1, {'op': 'CreateInstance', 'args': {
+            'NewInstance': {'t': 'newinst', 'cls': 'TST_Q', 'name': 'n-é😀-%d' % rng.randrange(3), 'pathns': 0,
+                            'text': 'ä€😀 ß'}, 'namespace': {'t': 'str', 'v': 'root/a'}}})
+        ops.append({'op': 'EnumerateInstances', 'args': {'ClassName': {'t': 'str', 'v': 'TST_P'},
+                                                          'namespace': {'t': 'str', 'v': 'root/a'},
+                                                          'DeepInheritance': {'t': 'bool', 'v': True}}})
+        ctype = rng.choice(facade_content_types())
         fault = {}
         if rng.random() < 0.85:
             cand = [i for i, o in enumerate(ops) if o['op'] in STATE_CHANGING] or list(range(len(ops)))
             fault = {rng.choice(cand): rng.choice(['drop', 'drop', 'truncate'])}
-        steps, states = O.run_http_history(sizes, seed, ops, dflt, fault)
+        steps, states = O.run_http_history(sizes, seed, ops, dflt, fault, ctype)
         for i, st in enumerate(steps):
-            out.append((st, dflt, st.host, http_case(sizes, seed, dflt, ops, fault, i), False))
-        check_http_states(run, states, http_case(sizes, seed, dflt, ops, fault, len(ops) - 1))
+            out.append((st, dflt, st.host, http_case(sizes, seed, dflt, ops, fault, i, ctype), False))
+        check_http_states(run, states, http_case(sizes, seed, dflt, ops, fault, len(ops) - 1, ctype))
+        run.count('http:content_type:' + ctype)
         run.count('http:faulted' if any(r.get('fault') for st in steps for r in st.exchanges) else 'http:clean')
 
 
@@ -790,7 +804,8 @@ def replay(payload):
     elif case['kind'] == 'http':
         fault = {int(k): v for k, v in case['fault'].items()}
         ops = case.get('all_ops', case['ops'])
-        steps, states = O.run_http_history(case['sizes'], case['seed'], ops, case['dflt'], fault)
+        steps, states = O.run_http_history(case['sizes'], case['seed'], ops, case['dflt'], fault,
+                                           case.get('content_type'))
         for i, st in enumerate(steps):
             oracle_step(r, st, case['dflt'], dict(case, index=i, ops=ops[:i + 1]), False)
         check_http_states(r, states, case)
